@@ -247,6 +247,97 @@ static void wrong_size_data() {
   }
 }
 
+// ---- backward entry points called with ONE operand of an inconsistent shape: the guard must
+// reject the call and leave the gradient operand(s) unchanged (the kernels index gy/gx through
+// the shapes of x/y, so an accepted mismatch is an out-of-bounds access)
+static Shape perturbed(const Shape &s, int kind) {
+  std::vector<std::uint32_t> d;
+  for (std::uint32_t i = 0; i < s.depth(); ++i) d.push_back(s[i]);
+  if (kind == 0) { if (d.empty()) d.push_back(2); else d[0] += 1; return Shape(d, s.batch()); }
+  if (kind == 1) { d.push_back(2); return Shape(d, s.batch()); }
+  return Shape(d, s.batch() + 1);
+}
+static void bw_shape_guards() {
+  for (int which_dev = 0; which_dev < 2; ++which_dev) {
+    devices::Naive ndev(11u); devices::Eigen edev(11u);
+    Device &dev = which_dev ? static_cast<Device &>(edev) : static_cast<Device &>(ndev);
+    Device::set_default(dev);
+    const std::string dn = which_dev ? "eigen " : "naive ";
+    auto fill = [&](const Shape &sh, float base) { V v(sh.size()); for (size_t i = 0; i < v.size(); ++i) v[i] = base + (float)((i * 5) % 7) - 3.0f; return dev.new_tensor_by_vector(sh, v); };
+    // op(x, y, gy, gx): valid call first, then every operand perturbed in three ways
+    struct Entry { std::string name; Shape sx; std::function<Tensor(const Tensor &)> fw; std::function<void(const Tensor &, const Tensor &, const Tensor &, Tensor &)> bw; };
+    std::vector<Entry> es;
+    es.push_back({"permute_dims_bw", Shape({2, 3, 4}, 2), [&](const Tensor &x) { return dev.permute_dims_fw(x, {2, 0, 1}); },
+                  [&](const Tensor &x, const Tensor &y, const Tensor &gy, Tensor &gx) { dev.permute_dims_bw(x, y, gy, {2, 0, 1}, gx); }});
+    es.push_back({"pown_bw", Shape({2, 3}, 2), [&](const Tensor &x) { return dev.pown_fw(x, 3); },
+                  [&](const Tensor &x, const Tensor &y, const Tensor &gy, Tensor &gx) { dev.pown_bw(x, y, gy, 3, gx); }});
+    es.push_back({"max_pool2d_bw", Shape({4, 4, 2}, 2), [&](const Tensor &x) { return dev.max_pool2d_fw(x, 2, 2, 0, 0, 2, 2); },
+                  [&](const Tensor &x, const Tensor &y, const Tensor &gy, Tensor &gx) { dev.max_pool2d_bw(x, y, gy, 2, 2, 0, 0, 2, 2, gx); }});
+    es.push_back({"max_bw", Shape({2, 3, 2}, 2), [&](const Tensor &x) { return dev.max_fw(x, 1); },
+                  [&](const Tensor &x, const Tensor &y, const Tensor &gy, Tensor &gx) { dev.max_bw(x, y, gy, 1, gx); }});
+    es.push_back({"min_bw", Shape({2, 3, 2}, 2), [&](const Tensor &x) { return dev.min_fw(x, 1); },
+                  [&](const Tensor &x, const Tensor &y, const Tensor &gy, Tensor &gx) { dev.min_bw(x, y, gy, 1, gx); }});
+    es.push_back({"transpose_bw", Shape({2, 3}, 2), [&](const Tensor &x) { return dev.transpose_fw(x); },
+                  [&](const Tensor &x, const Tensor &y, const Tensor &gy, Tensor &gx) { dev.transpose_bw(x, y, gy, gx); }});
+    es.push_back({"tanh_bw", Shape({2, 3}, 2), [&](const Tensor &x) { return dev.tanh_fw(x); },
+                  [&](const Tensor &x, const Tensor &y, const Tensor &gy, Tensor &gx) { dev.tanh_bw(x, y, gy, gx); }});
+    es.push_back({"prelu_bw", Shape({2, 3}, 2), [&](const Tensor &x) { return dev.prelu_fw(x, 0.25f); },
+                  [&](const Tensor &x, const Tensor &y, const Tensor &gy, Tensor &gx) { dev.prelu_bw(x, y, gy, 0.25f, gx); }});
+    for (const Entry &e : es) {
+      Tensor x = fill(e.sx, 0.5f), y = e.fw(x);
+      Tensor gy = fill(y.shape(), 1.0f), gx = fill(e.sx, 2.0f);
+      const V gx0 = gx.to_vector();
+      std::string r0 = outcome([&]() { e.bw(x, y, gy, gx); });
+      if (r0 != "ok") { fail(dn + e.name + " consistent call", r0); continue; } else ok("valid bw");
+      for (int operand = 0; operand < 3; ++operand) for (int kind = 0; kind < 3; ++kind) {
+        Tensor y2 = operand == 0 ? fill(perturbed(y.shape(), kind), 0.5f) : y;
+        Tensor gy2 = operand == 1 ? fill(perturbed(y.shape(), kind), 1.0f) : gy;
+        Tensor gx2 = fill(operand == 2 ? perturbed(e.sx, kind) : e.sx, 2.0f);
+        const V before = gx2.to_vector();
+        const std::string what = dn + e.name + ": " + (operand == 0 ? "y" : operand == 1 ? "gy" : "gx") + " of shape " +
+                                 (operand == 2 ? gx2.shape() : operand == 1 ? gy2.shape() : y2.shape()).to_string() + " (x " + e.sx.to_string() + ")";
+        std::string r = outcome([&]() { e.bw(x, y2, gy2, gx2); });
+        if (r != "Error") fail(what, "inconsistent operand accepted: " + r);
+        else if (!same(gx2.to_vector(), before)) fail(what, "rejected call changed gx");
+        else ok(what);
+      }
+    }
+    // flip_bw(gy, dim, gx)
+    {
+      const Shape sx({2, 3, 2}, 2);
+      for (int kind = 0; kind < 3; ++kind) {
+        Tensor gy = fill(perturbed(sx, kind), 1.0f), gx = fill(sx, 2.0f); const V before = gx.to_vector();
+        const std::string what = dn + "flip_bw: gy of shape " + gy.shape().to_string() + " (gx " + sx.to_string() + ")";
+        std::string r = outcome([&]() { dev.flip_bw(gy, 1, gx); });
+        if (r != "Error") fail(what, "inconsistent operand accepted: " + r); else if (!same(gx.to_vector(), before)) fail(what, "rejected call changed gx"); else ok(what);
+      }
+    }
+    // conv2d_bw(x, w, y, gy, ..., gx, gw)
+    {
+      const Shape sx({4, 4, 2}, 2), sw({2, 2, 2, 3});
+      Tensor x = fill(sx, 0.5f), w = fill(sw, 0.25f), y = dev.conv2d_fw(x, w, 0, 0, 1, 1, 1, 1);
+      for (int operand = 0; operand < 4; ++operand) for (int kind = 0; kind < 3; ++kind) {
+        Tensor y2 = operand == 0 ? fill(perturbed(y.shape(), kind), 0.5f) : y;
+        Tensor gy2 = fill(operand == 1 ? perturbed(y.shape(), kind) : y.shape(), 1.0f);
+        Tensor gx2 = fill(operand == 2 ? perturbed(sx, kind) : sx, 2.0f), gw2 = fill(operand == 3 ? perturbed(sw, kind) : sw, 3.0f);
+        const V bx = gx2.to_vector(), bw = gw2.to_vector();
+        const std::string what = dn + "conv2d_bw: operand " + std::string(operand == 0 ? "y" : operand == 1 ? "gy" : operand == 2 ? "gx" : "gw") + " perturbed (kind " + std::to_string(kind) + ")";
+        std::string r = outcome([&]() { dev.conv2d_bw(x, w, y2, gy2, 0, 0, 1, 1, 1, 1, gx2, gw2); });
+        if (r != "Error") fail(what, "inconsistent operand accepted: " + r);
+        else if (!same(gx2.to_vector(), bx) || !same(gw2.to_vector(), bw)) fail(what, "rejected call changed gx/gw");
+        else ok(what);
+      }
+      Tensor gy = fill(y.shape(), 1.0f), gx = fill(sx, 2.0f), gw = fill(sw, 3.0f);
+      std::string r = outcome([&]() { dev.conv2d_bw(x, w, y, gy, 0, 0, 1, 1, 1, 1, gx, gw); });
+      if (r != "ok") fail(dn + "conv2d_bw consistent call", r); else ok("valid conv2d_bw");
+      // attributes that do not match the y that was computed
+      Tensor gx3 = fill(sx, 2.0f), gw3 = fill(sw, 3.0f);
+      EXPECT_ERROR(dn + "conv2d_bw: stride differs from the forward call", dev.conv2d_bw(x, w, y, gy, 0, 0, 2, 1, 1, 1, gx3, gw3));
+      EXPECT_ERROR(dn + "conv2d_bw: padding differs from the forward call", dev.conv2d_bw(x, w, y, gy, 1, 0, 1, 1, 1, 1, gx3, gw3));
+    }
+  }
+}
+
 static void invalid_objects() {
   devices::Naive dev(1u), dev2(2u);
   Device::set_default(dev);
@@ -440,6 +531,7 @@ int main(int argc, char **argv) {
   // each block under a catch-all: an exception escaping a block is itself a finding, not a crash
   { std::string r = outcome([&]() { invalid_objects(); }); if (r != "ok") fail("block invalid_objects", "escaped: " + r); }
   { std::string r = outcome([&]() { wrong_size_data(); }); if (r != "ok") fail("block wrong_size_data", "escaped: " + r); }
+  { std::string r = outcome([&]() { bw_shape_guards(); }); if (r != "ok") fail("block bw_shape_guards", "escaped: " + r); }
   { std::string r = outcome([&]() { parameter_with_stats(); }); if (r != "ok") fail("block parameter_with_stats", "escaped: " + r); }
   { std::string r = outcome([&]() { alloc_failure_objects(); }); if (r != "ok") fail("block alloc_failure_objects", "escaped: " + r); }
   for (int i = 0; i < n; ++i) {
